@@ -8,7 +8,7 @@ from vf import markup, sched, term, vclock
 
 LEVEL = "exploration"
 RULE = (
-    "auto mode: main-thread programs of up to 3 ops (thorough 4) over {set_message(M1|M2), work(0|50ms|250ms), raise} "
+    "auto mode: main-thread programs of up to 3 ops (thorough 4) over {set_message(M1|M2|the end message itself), work(0|50ms|250ms), raise} "
     "inside 'with indicator.auto(start, end)'; the schedule is the list of choices at the scheduling points (every "
     "stream write, sleep, Event.set / is_set, Thread.start / join, thread exit) of a deterministic baton-passing "
     "scheduler under a virtual clock; (a) complete depth-first enumeration of all schedules with at most 2 (thorough 3) "
@@ -27,7 +27,7 @@ ASSUMPTIONS = [
 
 # messages are shown verbatim, also when they look like the placeholders of the indicator's own format
 START, END = "S0", "E9 {elapsed}"
-MSGS = {"M1": "M1", "M2": "M2-longer {elapsed:6s} {indicator} {message}"}
+MSGS = {"M1": "M1", "M2": "M2-longer {elapsed:6s} {indicator} {message}", "ME": END}  # ME: the end message itself
 VALUES = ["-", "\\", "|", "/"]
 
 
@@ -144,7 +144,7 @@ def check_auto(ctx, case, part="auto-random"):
     judge_auto(ctx, part, case, res)
 
 
-PROGRAM_OPS = [("msg", "M1"), ("msg", "M2"), ("work", 0), ("work", 0.05), ("work", 0.25), ("raise",), ("raise-ki",)]
+PROGRAM_OPS = [("msg", "M1"), ("msg", "M2"), ("msg", "ME"), ("work", 0), ("work", 0.05), ("work", 0.25), ("raise",), ("raise-ki",)]
 
 
 def programs(maxlen):
@@ -274,7 +274,7 @@ def check_manual(ctx, case, by_construction=False):
         pimod.time = real_time
 
 
-MANUAL_OPS = [["start"], ["advance"], ["msg", "M1"], ["msg", "M2"], ["finish"], ["tick", 0.03], ["tick", 0.1], ["tick", 0.25]]
+MANUAL_OPS = [["start"], ["advance"], ["msg", "M1"], ["msg", "M2"], ["msg", "ME"], ["finish"], ["tick", 0.03], ["tick", 0.1], ["tick", 0.25]]
 
 
 def shard_manual(ctx, arg):
